@@ -151,7 +151,7 @@ def run(cfg, tier="quick", seed=0, replay=None):
         "coverage": {
             "obligations": n_thm,
             "discharged": len(aud["closed"]) + len(aud["axioms"]) if proof_ok and aud.get("ok") else 0,
-            "checker_cmd": "make -C coq %s (coqc 8.16.1, full .vo) + Print Assumptions on every theorem of coq/%s/Properties.v" % (" ".join(cfg.proof_targets), pid),
+            "checker_cmd": "coqc 8.16.1 full .vo build of the dependency closure of %s (vlib.core.coq_make) + Print Assumptions on every theorem of coq/%s/Properties.v" % (" ".join(cfg.proof_targets), pid),
             "trusted_base": cfg.trusted_base,
             "theorems": aud["theorems"],
             "axioms_used": aud.get("axioms", {}),
